@@ -584,7 +584,10 @@ def run(ctx):
         info = gen_raw.generate(ctx)
         tables = info["tables"]
         ctx.cov["translator"] = {k: info[k] for k in ("classes", "written_keys", "options", "cases", "sources")}
-        ctx.cov["latent_not_demanded"] = info["latent"]
+        ctx.cov["latent_not_demanded"] = info["latent"] + [f"{t['name']}::Deserialize pops {k} {x} only under a condition (empty name)"
+                                                           for t in info["serializers"] for k, x in t["conditional_pops"]]
+        ctx.cov["serializer_sequences"] = {"classes": len(info["serializers"]), "pushes": sum(len(t["ser"]) for t in info["serializers"]),
+                                           "asymmetric": [list(d) for d in info["ser_defects"]]}
     except gen_raw.TranslatorError as e:
         ok = False
         ctx.proof_broken.append({"stage": "translator gen_raw.py fails closed", "error": str(e)})
@@ -594,14 +597,14 @@ def run(ctx):
     ctx.build_lib()
     exe = ctx.build_harness("ph_raw")
     evals = 0
-    static = info["defects"] if info else []
+    static = (info["defects"] + [(d[0], d[1], "Serialize/Deserialize", d[2]) for d in info["ser_defects"]]) if info else []
     ctx.cov["table_defects"] = [list(d) for d in static]
     status_of = (lambda tab, path: "unmodelled")
     if tables and ctx.pmodel_path().exists() and ok:
         fl = ctx.pmodel("raw", "failing\n")[0].split()[1:]
         lean_fail = {x.split(":")[0]: set(x.split(":")[1].split(",")) for x in fl}
         py_fail = {}
-        for d in static:
+        for d in info["defects"]:
             py_fail.setdefault(d[0], set()).add(d[1])
         if lean_fail != py_fail:
             raise RuntimeError(f"obligation mirror in gen_raw.py and Lean `failing` disagree: {py_fail} vs {lean_fail}")
@@ -775,7 +778,9 @@ def replay(ctx, data):
 
 MANIFEST = dict(
     technique="Lean 4: decide +kernel over writer/reader tables regenerated from every dump_raw/read_raw/vopts of the current source, lifted by a generic fixed-point theorem about an abstract record print/read model; differential round trips on the real library",
-    text=("Theorems (Properties/C10.lean, Lemmas/Raw.lean): find_option selects the FIRST option that starts with the case-folded item "
+    text=("Round 2: merge_plain_total / merge_valence_total / modify_element_totals (cxxNameDouble::merge_redox, all maps and names; tied "
+          "in-process to the real function on random maps); serialize_symmetric (push/pop sequences of Serialize/Deserialize of 20 classes, "
+          "263 pushes, regenerated from source) + serializer_round_trip (generic). Theorems (Properties/C10.lean, Lemmas/Raw.lean): find_option selects the FIRST option that starts with the case-folded item "
           "(findOption_first, findOption_shadowed, findOption_none — all items, all lists); over the complete regenerated tables of 20 entity "
           "classes (180 written keys, 208 options, 198 cases): keys_known, no_cross_wiring, state_restored, header_symmetric, required_defined, "
           "guards_ok, fields_distinct, continuation_ok (tables_ok, decide +kernel); exempt_are_defective (a table is only exempted when it "
